@@ -1173,7 +1173,12 @@ func (g *gen) loopBody(inner *scope, d int) string {
 			target = " " + labels[g.intn(len(labels), "lbl")]
 			g.f("labelled-" + kw)
 		}
-		body += "\nif " + g.expr(inner, tBool, 2) + " {\n\t" + kw + target + "\n}\n" + g.printStmt(inner, g.tag())
+		if g.chance(30, "oneline") {
+			g.f("oneline-branch")
+			body += "\nif " + g.expr(inner, tBool, 2) + " { " + kw + target + " }\n" + g.printStmt(inner, g.tag())
+		} else {
+			body += "\nif " + g.expr(inner, tBool, 2) + " {\n\t" + kw + target + "\n}\n" + g.printStmt(inner, g.tag())
+		}
 	}
 	return body
 }
